@@ -2,7 +2,7 @@
    system that ILPScheduler.schedule() builds.  Only statements; proofs are in Proofs/IlpP11.v. *)
 From Coq Require Import ZArith Bool List.
 Import ListNotations.
-From Verif Require Import Model.Val Gen.Src_Ilp Model.IlpModel Proofs.IlpP Proofs.IlpP11.
+From Verif Require Import Model.Val Gen.Src_Ilp Model.IlpModel Proofs.IlpP Proofs.IlpP11 Proofs.IlpP10 Proofs.IlpP14 Proofs.IlpP14s Proofs.IlpPM.
 Open Scope Z_scope.
 
 (* a placed child: every parent decided in the same invocation (and not already running) is placed, and the
@@ -31,6 +31,12 @@ Theorem C11_ilp_child_after_running_parent : forall I a, sat (gen_ilp I) a ->
   (t_remaining p <= s_rt st -> a (VStart (t_id c)) >= i_now I + t_remaining p).
 Proof. exact C11_child_after_running_parent. Qed.
 Print Assumptions C11_ilp_child_after_running_parent.
+
+(* the monitor applied to the implementation's answers is the decidable form of the plan-level property
+   (the property's own bound: child start >= parent start + chosen runtime; running parent: >= now + remaining) *)
+Theorem C11_ilp_monitor_spec : forall I p, c11_check I p = true <-> C11_plan_ok I p.
+Proof. exact c11_check_spec. Qed.
+Print Assumptions C11_ilp_monitor_spec.
 
 Theorem C11_ilp_nonvacuous : exists I a c p sc wc kc,
   sat (gen_ilp I) a /\ nodup_ids I /\ In c (nonrunning I) /\ decision I a c = Some (sc, wc, kc) /\
